@@ -122,7 +122,7 @@ def replay(ck, scen_files, realB=2048):
     if results:
         ck.sample({'replay_scenario': results[0]['sid'], 'status': results[0]['status'], 'steps': results[0]['steps']})
     if n and len(drift) > max(2, 0.05 * n) and not viol:
-        raise kzv.ToolFailure('model drift: %d of %d writer replays could not follow the model, e.g. %s' % (
+        ck.deferred.append('model drift: %d of %d writer replays could not follow the model, e.g. %s' % (
             len(drift), n, json.dumps({k: v for k, v in drift[0].items() if k != 'events'})))
     if drift:
         ck.notes.append('%d writer replay(s) inconclusive: %s' % (len(drift), drift[0].get('detail')))
